@@ -19,10 +19,10 @@ type Witness struct {
 }
 
 type WitnessResult struct {
-	Name     string `json:"name"`
-	Expect   string `json:"expect"`
-	Outcome  string `json:"outcome"` // detected | missed | silent | false-alarm | skipped | wrong-rule
-	Fired    []string `json:"fired,omitempty"`
+	Name    string   `json:"name"`
+	Expect  string   `json:"expect"`
+	Outcome string   `json:"outcome"` // detected | missed | silent | false-alarm | skipped | wrong-rule
+	Fired   []string `json:"fired,omitempty"`
 }
 
 func loadWitnesses(prop string) []Witness {
